@@ -115,6 +115,12 @@ Candidates(n, ndots, domain, search, rules) ==
 
 CandidatesOf(cfg, rules) == Candidates(cfg.name, cfg.ndots, cfg.domain, cfg.search, rules)
 
+\* the last name of the list when repeated names are kept (see Plan)
+LastWithRepeats(cfg, rules) ==
+    LET n == cfg.name
+        sfxd == Suffixed(n, cfg.domain, cfg.search)
+    IN IF n.fqdn \/ sfxd = <<>> \/ ~AsIsFirst(n, cfg.ndots, rules) THEN n.labels ELSE sfxd[Len(sfxd)]
+
 ----------------------------------------------------------------------------
 \* 3. strategy: which record types, combined how
 
@@ -218,10 +224,21 @@ LiteralGroup(cfg) == [fam |-> IF cfg.name.lit = "v4" THEN "A" ELSE "AAAA", src |
 \* [lit]: an address literal given to lookup_ip is returned as it is; nothing is asked
 IsLiteral(cfg) == cfg.api = "ip" /\ cfg.name.lit # ""
 
+\* A resolver that tries a repeated name again (the documentation neither asks for nor forbids
+\* it) sees the failure of that name last: when the list with repeats ends in another name than
+\* the list without, the failure of either may be shown.
+Pos(cands, c) == CHOOSE i \in DOMAIN cands : cands[i] = c
+
 Plan(cfg, w, rules) ==
     IF IsLiteral(cfg)
     THEN [steps |-> <<>>, result |-> [kind |-> "ok", groups |-> <<LiteralGroup(cfg)>>, errs |-> {}]]
-    ELSE Walk(cfg, w, rules, CandidatesOf(cfg, rules), 1)
+    ELSE LET cs == CandidatesOf(cfg, rules)
+             wk == Walk(cfg, w, rules, cs, 1)
+             lr == LastWithRepeats(cfg, rules)
+         IN IF wk.result.kind = "ok" THEN wk
+            ELSE [steps |-> wk.steps,
+                  result |-> [kind |-> "err", groups |-> <<>>,
+                              errs |-> wk.result.errs \cup CandPlan(cfg, w, rules, lr, Pos(cs, lr)).errs]]
 
 ----------------------------------------------------------------------------
 \* comparing an observed sequence of questions <<[n, t], ...>> (repeats of a question already
@@ -252,7 +269,6 @@ Questions(asked) == [j \in DOMAIN asked |-> [n |-> asked[j].n, t |-> asked[j].t]
 OnlyCandidates(cfg, asked) ==
     \A j \in DOMAIN asked : asked[j].n \in SeqRange(CandidatesOf(cfg, Strict))
 \* 1: candidates are asked in list order (a name once left is not asked again)
-Pos(cands, c) == CHOOSE i \in DOMAIN cands : cands[i] = c
 InListOrder(cfg, asked) ==
     LET cs == CandidatesOf(cfg, Strict) IN
     \A j, k \in DOMAIN asked :
